@@ -1767,6 +1767,8 @@ class FuncFind(ValueFunc):
             item = args.get("part")
             lst = obj.value
             for idx in range(max(start, 0), len(lst)):
+                if idx >= len(lst):
+                    break       # the key function has shortened the list
                 elem = lst[idx]
                 if key:
                     elem = key.execute(
@@ -1827,6 +1829,8 @@ class FuncFindLast(ValueFunc):
             lst = obj.value
             start = min(args.getInt("start", len(lst) - 1).value, len(lst) - 1)
             for idx in range(start, -1, -1):
+                if idx >= len(lst):
+                    continue    # the key function has shortened the list
                 elem = lst[idx]
                 if key:
                     elem = key.execute(
